@@ -1,4 +1,5 @@
 """C11 TDD three-valued logic"""
+import ecache
 import ewrap
 import kinds
 import tables
@@ -21,4 +22,9 @@ def run(ctx):
     kinds.wrappers(ctx, F, "tdd", [kinds.TVL], 10)
     n = ewrap.check_trait_defaults(ctx, F)
     ctx.floor("E-WRAP.default", "default methods with an _edge sibling", n, 60)
+    ctx.explain("E-CACHE: in this kind's algorithm functions the apply-cache key of every insertion equals the key "
+                "of the lookup, the memoised value is the returned value, hit and miss paths agree, tags are disjoint.")
+    n = ecache.run(ctx, F, crates=("oxidd_rules_tdd::",))
+    ctx.floor("E-CACHE", "cache-using algorithm functions", n, 3)
+    ecache.check_hit_equals_miss(ctx, F, crates=("oxidd_rules_tdd::",))
     ctx.not_decided = "ternary Shannon recursion, eval"
